@@ -56,6 +56,11 @@ pub mod other_types {
     pub struct Maybe(Option<i16>);
     #[nutype(derive(Debug, Serialize))]
     pub struct Pair((u8, u8));
+    // derive-set interaction: Serialize together with IntoIterator must still be the inner value's own encoding
+    #[nutype(derive(Debug, Serialize, IntoIterator))]
+    pub struct IterOpt(Option<i16>);
+    #[nutype(derive(Debug, Serialize, IntoIterator, AsRef))]
+    pub struct IterArr([u8; 2]);
 
     #[kani::proof]
     #[kani::unwind(6)]
@@ -91,6 +96,11 @@ pub mod other_types {
         let t: (u8, u8) = kani::any();
         let r2 = Pair::new(t).serialize(RecSer).unwrap(); let ri2 = t.serialize(RecSer).unwrap();
         assert!(r2.ev == ri2.ev && r2.newtype_depth == 1 && r2.name_len == 4);
+        let r3 = IterOpt::new(o).serialize(RecSer).unwrap();
+        assert!(r3.ev == ri.ev && r3.some_depth == ri.some_depth && r3.newtype_depth == 1, "Serialize of an iterable (Option) newtype differs from the inner value's own encoding");
+        let a: [u8; 2] = kani::any();
+        let r4 = IterArr::new(a).serialize(RecSer).unwrap(); let ri4 = a.serialize(RecSer).unwrap();
+        assert!(r4.ev == ri4.ev && r4.newtype_depth == 1 && r4.seq_kind == ri4.seq_kind, "Serialize of an iterable (array) newtype differs from the inner value's own encoding");
     }
 }
 '''
@@ -101,7 +111,7 @@ def generate(tier, seed):
     plan = Plan("C10")
     src = ["// generated by props/c10.py\n"]
     all_types = INT_TYPES + FLOAT_TYPES
-    core = ["i8", "u16", "i32", "u64", "f32", "f64"]
+    core = ["i8", "u16", "i32", "u64", "u128", "f32", "f64"]
     types = all_types if tier == "thorough" else core + rng.sample([t for t in all_types if t not in core], 1)
     first = True
     for ty in types:
